@@ -80,7 +80,7 @@ func registerAll() {
 
 	stubsDec := []string{"channel (fault injector)", "Byzantine attester (re-signs structurally damaged payloads with its own pool key)", "sim extension profiles XP1/XP2 and five struct shapes for the embedding-aware helpers", "one child process per trace"}
 	decRule := "one run = 1..4 real messages (COSE token, bare CBOR claims, JSON claims, component list in CBOR / JSON, structs serialised by the embedding-aware helpers; valid and invalid claims of both profiles and two extension profiles) x 2..8 copies, each damaged by 1..3 faults (bit flip, byte substitution, multi-byte edit, truncation, extension, padding up to 64 KiB, inflated length fields, concatenation, header surgery, splice, deep nesting of arrays / maps / tags / byte strings / JSON brackets (also well-formed deep-and-wide JSON), neighbour edits of text and byte strings and of the profile claim, null / empty / duplicate / type-swapped / out-of-width members at any node of the CBOR or JSON tree), half of them applied to the signed payload and re-signed by a Byzantine attester; every delivered byte string goes to all 43 decoding entry points (COSE, CBOR and JSON claims decoders and their validating twins, a reused Evidence, the per-type Unmarshal methods on fresh and on long-lived reused targets, extension types through PopulateStructFromCBOR/JSON, component containers, seven struct shapes incl. embedded struct / embedded interface / nil interface / mandatory fields of plain kinds). " +
-		"The first 38 runs of every batch are sweeps: truncation at EVERY offset, substitution of EVERY CBOR head byte (also inside the signed payload and the protected header), and four floods of 2000 small documents with never-repeating member names, of one message per kind x profile (every 5th value in the quick tier, all 255 in the thorough tier). "
+		"The first 50 runs of every batch are sweeps (incl. every member of a JSON message of each kind and struct shape replaced by each of eight literals): truncation at EVERY offset, substitution of EVERY CBOR head byte (also inside the signed payload and the protected header), and four floods of 2000 small documents with never-repeating member names, of one message per kind x profile (every 5th value in the quick tier, all 255 in the thorough tier). "
 	props["C05"] = &propSpec{
 		ID: "C05", Worlds: []string{"W-DEC"}, QuickRuns: 2500, ThoroughRuns: 300000, Isolated: true,
 		Rule: decRule + "Whatever decodes is validated, read through every getter (components too), re-encoded to CBOR and JSON (plain and validating) and verified under one key of every kind and nil. non-trivial = a damaged message that at least one entry point still decoded; distinct = distinct hash of (message kinds, fired fault sequence)",
